@@ -24,11 +24,25 @@ def className (pt : String) (v : Int) : String :=
   else if v == 0 then "stack-default"
   else s!"stack-class{SizeClass.sizeToIndex (SizeClass.roundPage v.toNat)}"
 
+def hexDigit (c : Char) : Nat :=
+  if '0' ≤ c ∧ c ≤ '9' then c.toNat - '0'.toNat
+  else if 'a' ≤ c ∧ c ≤ 'f' then c.toNat - 'a'.toNat + 10
+  else if 'A' ≤ c ∧ c ≤ 'F' then c.toNat - 'A'.toNat + 10 else 0
+
+/-- identity of a block: the hook reports the stack TOP (`base + rounded size - 16`), which moves when the same
+    block of a size class is handed out again for another custom size of that class; the block start does not -/
+def blockKey (pt : String) (v : Int) (raw : String) : String :=
+  if pt.startsWith "STACK" && v != 0 then
+    let top := (raw.drop 1).toString.toList.foldl (fun n c => 16 * n + hexDigit c) 0
+    s!"#{top + 16 - SizeClass.roundPage v.toNat}"
+  else raw
+
 def feed (acc : Acc) (line : String) : Acc :=
   if acc.err.isSome then acc else
   let acc := { acc with line := acc.line + 1 }
   match Driver.parseEv line, Driver.rawAddr line with
-  | some e, some raw =>
+  | some e, some raw0 =>
+    let raw := blockKey e.pt e.v raw0
     if !(e.pt == "DESC_GET" || e.pt == "DESC_FREE" || e.pt == "STACK_GET" || e.pt == "STACK_FREE") then acc else
     let cn := className e.pt e.v
     let c := (acc.cls.find? (·.name == cn)).getD { name := cn, st := init, real := [] }
@@ -39,7 +53,18 @@ def feed (acc : Acc) (line : String) : Acc :=
         match c.real.find? (·.1 == a) with
         | some (_, r) =>
           if r == raw then put { c with st := st' }
-          else { acc with err := some s!"MISMATCH line {acc.line}: {cn}: worker {e.part} was handed block {raw}, the model's free list head is {r}" }
+          else
+            -- not the head of the model's list: acceptable iff it is another block of THIS worker's free list of this
+            -- class (the order inside one free list is not part of the property; the class lists of the general
+            -- allocator are shared with other users); a block in use or on another worker's list is a mismatch
+            match c.real.find? (·.2 == raw) with
+            | some (a', _) =>
+              if (c.st.fl e.part).contains a' then
+                let owned := a' :: c.st.owned
+                put { c with st := { c.st with owned := owned, fl := upd c.st.fl e.part ((c.st.fl e.part).erase a'),
+                                                peak := max c.st.peak owned.length } }
+              else { acc with err := some s!"MISMATCH line {acc.line}: {cn}: worker {e.part} was handed block {raw}, which is {if c.st.owned.contains a' then "IN USE" else "on another worker's free list"} (the model's free list head is {r})" }
+            | none => { acc with err := some s!"MISMATCH line {acc.line}: {cn}: worker {e.part} was handed the unknown block {raw} although its free list is not empty (head {r})" }
         | none =>
           if c.real.any (·.2 == raw) then
             { acc with err := some s!"MISMATCH line {acc.line}: {cn}: block {raw} handed out as fresh but it is already known (in use or on a free list)" }
